@@ -1,4 +1,4 @@
-import BbRe.Model.SchedTree
+import BbRe.Model.SchedTreeCheck
 import BbRe.Drivers.Util
 /-!
 Line-protocol driver for `Model/SchedTree.lean`: the protocol of `Drivers/Sched.lean` (same op
@@ -151,12 +151,25 @@ def treedump (ts : TState) : String :=
     s!"n {n.scq.pq}/{n.scq.sc} p={showPath n.path} ops={showNats (sortNats n.qops)} qk={showNats (sortNats n.qkids)} ik={showNats (sortNats n.ikids)} prio={if n.isQueued then toString n.prio else "-"} ex={n.exec.length}/{sum} st={n.started} co={n.completed} idle={n.idle} parked={parked}")
   let xs := ts.wx.map (fun y =>
     let last := match y.last with | some p => showPath p | none => "nil"
-    s!"x {showW y.scq y.id} last={last} sticks={showNats y.sticks}")
+    s!"x {showW y.scq y.id} last={last} sticks={showNats y.sticks} parked={b01 y.parked}")
   let ys := ts.s.tasks.map (fun (_, t) =>
     match alookup t.id ts.tx with
     | some y => s!"y {lowestOp t} dur={y.dur} qts={y.qts}"
     | none => s!"y {lowestOp t} dur=? qts=?")
   "|".intercalate (sortStrings (ns ++ xs ++ ys))
+
+/-- Two operations of one task lose their last waiter at the same instant: which `operation.remove` runs
+first depends on the layout of the cleanup heap, and it decides which of them is the task's last operation
+(only that one completes the task through a temporary worker, which stamps `lastOperationStarted` /
+`lastOperationCompletion` of its invocations).  The harness discards such histories, like the ties of
+`Sched.dueTie`. -/
+def treeTie (now : Nat) (s : State) : Bool :=
+  let due := s.cleanup.filter (fun e => decide (e.deadline ≤ now) && e.kind.isOp)
+  let taskOf (e : CleanupEntry) : Option Nat := match e.kind with
+    | .op o => (s.op? o).map (·.task)
+    | _ => none
+  due.any (fun e => due.any (fun e' => decide (e.kind ≠ e'.kind) && decide (e.deadline = e'.deadline) &&
+    (taskOf e).isSome && taskOf e == taskOf e'))
 
 def finish (r : M TState) (old : TState) : TState × String :=
   match r with
@@ -239,7 +252,15 @@ def step (ts : TState) (ws : List String) : TState × String :=
     | some now => tieNote now (finish (tEnter h x ts now) ts)
     | none => bad
   | ["dump"] => (ts, dump ts.s)
+  | ["treetie", now] =>
+    match now.toNat? with
+    | some now => (ts, if now > s.now ∧ treeTie now s then "1" else "0")
+    | none => bad
   | ["treedump"] => (ts, treedump ts)
+  | ["treecheck"] =>
+    (ts, match invViolations ts with
+      | [] => "ok"
+      | l => "violated " ++ ",".intercalate l)
   | _ => bad
 
 end BbRe.Drivers.SchedTree
